@@ -201,6 +201,8 @@ func (tr *FnCtx) regComp(c Comp) {
 	}
 }
 
+func (tr *FnCtx) refAxiomLater(st *State, c Comp, s string) { tr.regComp(c) }
+
 // refAxiom: heap well-formedness — a reference stored in an allocated cell points to an allocated object
 // (Go is memory safe). alloc is the allocation counter of the state the symbol belongs to.
 func (tr *FnCtx) refAxiom(st *State, c Comp, s string) {
@@ -869,6 +871,7 @@ func (tr *FnCtx) block(b *ssa.BasicBlock) {
 			v := tr.freshVal(phi.Type(), "phi_"+sanitize(phi.Comment))
 			tr.vals[phi] = v
 			li.phiFresh[phi] = v
+			tr.assumeLoaded(st, v) // whatever a variable holds refers to allocated objects
 		}
 		tr.loopAssume(li, st)
 	}
